@@ -13,7 +13,7 @@ MAP = [  # (substring of the commit subject, property)
  ("MessagePack request with str map keys", "C02"), ("null in place of a multi-valued", "C02"),
  ("None return value of complex type", "C02"), ("ModelBase.to_bytes", "C02"),
  ("null member of complex type", "C02"), ("members of a class used more than once", "C03"),
- ("strict_arrays rejected arrays", "C03"), ("SOAP 1.2 fault whose detail dict", "C09"),
+ ("strict_arrays rejected arrays", "C03"), ("SOAP 1.2 fault whose detail dict", "C09"), ("Soap12 client could only read faults", "C09"),
  ("Mandatory(SomeArray) made the members", "C15"), ("adding a field to a subclass also added it", "C15"),
  ("customization of a number type silently removed", "C15"),
  ("SOAP request with an empty Body", "C10"), ("empty SOAP request or one not in the announced charset", "C10"),
